@@ -251,3 +251,76 @@ def v_accessor(c, method):
         else:
             ref = pm.np_ptm2(S, Ss, f, d, float(wspd[t]), float(wdir[t]), float(dpt[t]), 1.7, 0.3333, n_req, 100)
         c.ensure_true("each_spectrum_partitioned_on_its_own", bool(np.allclose(o, ref, rtol=1e-5, atol=1e-12)), "differs from the single-spectrum call")
+
+
+# ---------------------------------------------------------------------------------------
+# np_ptm3 symbolically for a fixed small grid (BOUNDED IN SHAPE, all values and all label maps)
+
+
+def stub_watershed(spectrum, ihmax):
+    """label map contract L of the C watershed as seen by the Python side: an integer array of the
+    spectrum's shape with values in [0, nspec] (n = max; every bin labelled >= 1 is the bounded
+    C04 contract and is NOT assumed here)"""
+    import z3
+    from engine.pyse.core import CTX, Sym
+    from engine.pyse.harness import input_array
+
+    arr = A.asarr(spectrum)
+    shape = arr.shape_
+    lab = input_array("lab", shape, kind="i", owner="fresh")
+    n = 1
+    for e in shape:
+        n *= A.conc(e)
+    qs = [z3.Int(f"ql{k}") for k in range(len(shape))]
+    CTX.assume(z3.ForAll(qs, z3.And(lab._uf(*qs) >= 0, lab._uf(*qs) <= n), patterns=[lab._uf(*qs)]))
+    return lab
+
+
+from engine.pyse import api as _api  # noqa: E402
+from contracts.watershed_call import W as _W  # noqa: E402
+
+_api.CONTRACTS[_W].stub = stub_watershed
+
+
+@contract(PP + "np_ptm3", props=["C03"], name="small_grid", scenarios=[{"nf": 2, "nd": 2, "parts": p} for p in (1, 2)],
+          uses=[_W])
+def v_np_ptm3_symbolic(c, nf, nd, parts):
+    """for every spectrum on a 2x2 grid and EVERY label map the C routine could return: each bin of
+    each partition is the input density or zero, no bin in two partitions, the partitions add up
+    to the labelled part of the input when enough are requested (else to no more), the output has
+    exactly the requested number of partitions"""
+    from engine.pyse.core import Sym
+
+    m = c.m
+    if not m.symbolic:
+        return  # the concrete side of np_ptm3 is the run-time contract v_np_ptm3
+    S = c.array("S", (Sym(nf), Sym(nd)), nonneg=True)
+    F = c.array("F", (Sym(nf),), sorted_inc=True, positive=True)
+    D = c.array("D", (Sym(nd),))
+    out = c.call(S, S, F, D, parts, 100)
+    n_out = A.conc(out.shape_[0])
+    if parts is not None:
+        c.ensure_true("exactly_the_requested_number_of_partitions", n_out == parts, f"{n_out} vs {parts}")
+    lab = lambda i, j: Sym(A.z3.Function("lab", A._I, A._I, A._I)(i, j))
+    nmax = None
+    for i in range(nf):
+        for j in range(nd):
+            l = lab(i, j)
+            nmax = l if nmax is None else A.smax(nmax, l)
+    for i in range(nf):
+        for j in range(nd):
+            s = S.get((Sym(i), Sym(j)))
+            tot = Sym(0.0)
+            nonzero = Sym(0)
+            for k in range(n_out):
+                v = out.get((Sym(k), Sym(i), Sym(j)))
+                c.ensure("each_bin_original_density_or_zero", m.or_(v == s, v == 0))
+                tot = tot + v
+                nonzero = nonzero + m.ite(v != 0, Sym(1), Sym(0))
+            c.ensure("no_bin_in_two_partitions", nonzero <= 1)
+            if parts is None:
+                c.ensure("partitions_add_up_to_the_input", tot == m.ite(lab(i, j) >= 1, s, 0.0))
+            else:
+                c.ensure("partitions_add_up_to_the_input_when_enough_requested",
+                         c.implies(nmax <= parts, tot == m.ite(lab(i, j) >= 1, s, 0.0)))
+                c.ensure("partitions_add_up_to_no_more_than_the_input", tot <= s)
